@@ -43,6 +43,7 @@ pub fn workload_cfg(sync_always: bool) -> BoxedStrategy<StoreCfg> {
             // every non-empty file is eligible: partial selection (D2) is C05's subject
             small_file: u64::MAX,
             sync_always,
+            sync_interval_ms: 0,
         })
         .boxed()
 }
